@@ -13,6 +13,7 @@ import (
 	"reflect"
 	"runtime"
 	"strings"
+	"sync"
 )
 
 // ---------------------------------------------------------------- registry
@@ -69,7 +70,7 @@ func pop(kind string) int64 {
 		panic("vrt: no replay vector loaded (native harness code only runs under replay)")
 	}
 	// map-iteration orders chosen by the engine cannot be imposed on the Go runtime
-	for cur.pos < len(cur.vec.Values) && cur.vec.Values[cur.pos].Kind == "perm" {
+	for cur.pos < len(cur.vec.Values) && (cur.vec.Values[cur.pos].Kind == "perm" || cur.vec.Values[cur.pos].Kind == "sched") {
 		cur.pos++
 	}
 	if cur.pos >= len(cur.vec.Values) {
@@ -404,4 +405,39 @@ func deepHash(v reflect.Value, seen map[uintptr]bool, depth int) uint64 {
 		h = mix(h, acc)
 	}
 	return h
+}
+
+// ---------------------------------------------------------------- Par (C14)
+
+// Par runs f and g as two threads. The engine executes them as two logical
+// threads and decides with the solver whether any two conflicting accesses can
+// be adjacent in some schedule. Natively they run concurrently, many times, so
+// that a replay under `go test -race` lets the race detector confirm the race.
+func Par(f, g func()) {
+	rounds := 300
+	var fail interface{}
+	var mu sync.Mutex
+	run := func(h func(), wg *sync.WaitGroup) {
+		defer wg.Done()
+		defer func() {
+			if r := recover(); r != nil {
+				mu.Lock()
+				if fail == nil {
+					fail = r
+				}
+				mu.Unlock()
+			}
+		}()
+		h()
+	}
+	for i := 0; i < rounds && fail == nil; i++ {
+		var wg sync.WaitGroup
+		wg.Add(2)
+		go run(f, &wg)
+		go run(g, &wg)
+		wg.Wait()
+	}
+	if fail != nil {
+		panic(fail)
+	}
 }
